@@ -27,6 +27,7 @@ DDL_STATUS = {
     "CREATE TABLE": ("Table ", " successfully created.", "T"),
     "CREATE TABLE varchar+comment": ("Table ", " successfully created.", "T"),
     "CREATE TABLE AS": ("Table ", " successfully created.", "T"),
+    "CREATE TABLE props no comment": ("Table ", " successfully created.", "T"),
     "CREATE TABLE CLONE": ("Table ", " successfully created.", "T2"),
     "CREATE VIEW": ("View ", " successfully created.", "V"),
     "CREATE SCHEMA": ("Schema ", " successfully created.", "S"),
